@@ -235,6 +235,10 @@ func vh_C08_L3_one_loss() {
 		_ = b.Shutdown(vNewClosedCtx())
 	}
 	dropAt := vPick(8) // index of the lost packet among all packets put on the wire
+	dropAt2 := -1
+	if vtier() > 0 {
+		dropAt2 = dropAt + vPick(5) // thorough: a second lost packet (or none)
+	}
 	idx := 0
 	wire := func(x, y *Association) int {
 		n := 0
@@ -243,7 +247,7 @@ func vh_C08_L3_one_loss() {
 			if p != nil && vHasShutdownChunk(p) {
 				vassert(!x.hasPendingOrInflightData(), "SHUTDOWN / SHUTDOWN-ACK is never emitted while own data is pending or in flight")
 			}
-			if idx != dropAt {
+			if idx != dropAt && idx != dropAt2 {
 				vInbound(y, raw)
 			}
 			idx++
@@ -251,7 +255,7 @@ func vh_C08_L3_one_loss() {
 		}
 		return n
 	}
-	for round := 0; round < 14; round++ {
+	for round := 0; round < 20; round++ {
 		n := wire(a, b)
 		vFireAck(b)
 		n += wire(b, a)
